@@ -42,9 +42,9 @@ def func(it: Interp, modname: str, name: str):
     return it.module_global(it.source.module(modname), name)
 
 
-def new(it: Interp, modname: str, name: str, **attrs) -> Obj:
+def new(it: Interp, modname: str, clsname: str, /, **attrs) -> Obj:
     """An object of a repo class *without* running __init__ (symbolic pre-state); fields given explicitly."""
-    o = Obj(cls(it, modname, name))
+    o = Obj(cls(it, modname, clsname))
     o.attrs.update(attrs)
     it.attach_future(o)
     return o
